@@ -23,9 +23,9 @@ RULE = (
     "of character classes in the candidate, accepted?)."
 )
 SHARDS = {"quick": 16, "thorough": 16}
-TIMEOUT = {"quick": 300, "thorough": 5400}
+TIMEOUT = {"quick": 300, "thorough": 7200}
 MIN_EVALS = {"quick": 8000, "thorough": 150000}
-CASES = {"quick": 300, "thorough": 6000}
+CASES = {"quick": 300, "thorough": 36000}
 STEPS = {"quick": 10, "thorough": 24}
 EXHAUSTIVE = {"quick": False, "thorough": False}
 ASSUMPTIONS = [
